@@ -140,7 +140,28 @@ func famTotal(g *Gen) {
 			g.do(Cmd{Op: OpSlice, T: x, Ranges: g.hostileRanges(len(g.shapeOf(x)) + 1)})
 			g.tag("slice")
 		case 7:
-			g.do(Cmd{Op: OpPatch, T: x, Ranges: g.hostileRanges(len(g.shapeOf(x)) + 1), U: u})
+			if g.chance(0.5) {
+				// source sizes around the target's, ranges mostly {0,0} / omitted: the size check must hold for them too
+				xs := g.shapeOf(x)
+				src := make([]int, len(xs))
+				for j := range xs {
+					src[j] = xs[j] + g.pick(-1, 0, 0, 1, 2)
+					if src[j] < 1 {
+						src[j] = 1
+					}
+				}
+				idx := make([][2]int, g.intn(len(xs)+1))
+				for j := range idx {
+					if !g.chance(0.7) {
+						f := g.intn(xs[j])
+						idx[j] = [2]int{f, f + src[j]}
+					}
+				}
+				g.do(Cmd{Op: OpPatch, T: x, Ranges: idx, U: T(g.leaf(src, false))})
+				g.tag("patch-size-mismatch")
+			} else {
+				g.do(Cmd{Op: OpPatch, T: x, Ranges: g.hostileRanges(len(g.shapeOf(x)) + 1), U: u})
+			}
 			g.tag("patch")
 		case 8:
 			g.do(Cmd{Op: OpTranspose, T: x})
